@@ -157,6 +157,28 @@ def ob_bpm_at(shape, G, budget_s=120):
     return symx.explore(run, budget_s=budget_s)
 
 
+def ob_bpm_at_floats(shape, G, budget_s=120):
+    """bpm_at(q) with IEEE-faithful floats: BPM values, pause lengths and offset concrete, positions symbolic but pinned wherever the
+    code converts a beat to a double (1/3 is not a double); see C13 hittable_floats"""
+    import z3
+    symx, mods = _setup()
+    symx.FLOAT_FAITHFUL = True
+    Beat = mods["simfile.timing"].Beat
+
+    def run():
+        bpms = (120, 7, 90)[: shape[0] + 1]
+        den = tc.time_unit_den(bpms)
+        V = tc.sym_timing(shape, G, sym_bpm=False, bpm_values=bpms, den=den)
+        for n in V.get("ns", []) + V.get("nd", []):
+            symx.CTL.assume(n == den // 4)
+        symx.CTL.assume(V["noff"] == 0)
+        kq = symx.fresh_int("kq", 0, 2 * G)
+        eng = _engine(mods, tc.build_td(mods, V))
+        got = eng.bpm_at(Beat(symx.SymInt(kq), 48))
+        return symx.zr(symx.term_of(got)) == tc.oracle_bpm(V, kq), ("bpm_at_floats", shape)
+    return symx.explore(run, budget_s=budget_s)
+
+
 def obligations(tier):
     obs = []
     if tier == "quick":
@@ -172,6 +194,9 @@ def obligations(tier):
         for s in tc.shapes(3):
             if s[0] >= 1:
                 obs.append(dict(name=f"bpm_at{s}/G{G}", func="ob_bpm_at", args=(s, G), budget_s=b, bounds=f"shape {s}"))
+        for s, g in (((1, 0, 0, 0), 8), ((2, 0, 0, 0), 6), ((1, 0, 0, 1), 5)):
+            obs.append(dict(name=f"bpm_at_floats{s}/G{g}", func="ob_bpm_at_floats", args=(s, g), budget_s=b,
+                            bounds=f"shape {s}, ticks 0..{g}, IEEE-faithful floats: positions pinned wherever the code converts a beat to a double; BPM values 120/7/90 concrete"))
         for s, g, nr in [((0, 1, 0, 0), 6, False), ((0, 0, 1, 0), 6, False), ((0, 1, 0, 1), 4, True), ((0, 1, 1, 0), 4, True)]:
             obs.append(dict(name=f"history{s}/G{g}" + ("/narrow-tags" if nr else ""), func="ob_history", args=(s, g, nr), budget_s=b,
                             bounds=f"shape {s}, ticks 0..{g}: one arbitrary earlier query (time_at any beat/tag, bpm_at, hittable) on the same engine, then time_at(q, tag) against the oracle"))
@@ -218,6 +243,12 @@ def replay(data):
     shape = tuple(data["args"][0])
     func = data["func"]
     g = lambda n, dflt="0": Fraction(m.get(n, dflt))
+    if func == "ob_bpm_at_floats":
+        m = dict(m)
+        bp = (120, 7, 90)[: shape[0] + 1]
+        for i, v in enumerate(bp):
+            m[f"b{i}"] = str(v)
+        m["__den__"] = str(tc.time_unit_den(bp))
     c = tc.model_timing(m, shape)
     td = tc.real_td(c)
     q = Beat(g("kq"), 48) if False else Beat(int(g("kq")), 48)
@@ -239,7 +270,7 @@ def replay(data):
         got = float(e.time_at(q, EventTag(tag)))
         exp = tc.exact_time(c, Fraction(q), tag)
         return abs(got - float(exp)) > TOL, f"after an earlier query ({['time_at', 'bpm_at', 'hittable'][prev]} at {q0!r}) time_at({q!r},{tc.TAGS[tag]}) = {got!r}, exact timeline = {float(exp)!r}; timing={c}"
-    if func == "ob_bpm_at":
+    if func in ("ob_bpm_at", "ob_bpm_at_floats"):
         got = Fraction(TimingEngine(td).bpm_at(q)); exp = tc.exact_bpm(c, Fraction(q))
         return got != exp, f"bpm_at({q!r}) = {got}, expected {exp}; timing={c}"
     if func == "ob_monotone":
